@@ -208,24 +208,44 @@ def run_cases(casedir, pattern="cases*.v", timeout=1500, jobs=8):
 
 # ---------------------------------------------------------------- harness
 
-def ensure_harness_mod(repo):
+def ensure_harness_mod(repo="/repo"):
+    """harness/go.mod always points at /repo (only (re)written when missing or stale: go.sum follows /repo/go.sum).
+    For another tree ($VERIF_REPO) a private modfile build/mod/<hash>.mod is used with `go build -modfile`,
+    so concurrent checks against different trees never rewrite each other's module file."""
     hdir = os.path.join(VERIF, "harness")
-    tmpl = open(os.path.join(hdir, "go.mod.tmpl")).read().replace("@REPO@", repo)
-    for name, content in (("go.mod", tmpl), ("go.sum", open(os.path.join(repo, "go.sum")).read())):
+    tmpl = open(os.path.join(hdir, "go.mod.tmpl")).read()
+    for name, content in (("go.mod", tmpl.replace("@REPO@", "/repo")), ("go.sum", open("/repo/go.sum").read())):
         p = os.path.join(hdir, name)
         if not os.path.exists(p) or open(p).read() != content:
             tmp = p + ".%d" % os.getpid()
             open(tmp, "w").write(content)
             os.replace(tmp, p)
+    if os.path.realpath(repo) == "/repo":
+        return None
+    md = os.path.join(VERIF, "build", "mod")
+    os.makedirs(md, exist_ok=True)
+    h = hashlib.sha256(os.path.realpath(repo).encode()).hexdigest()[:12]
+    mf = os.path.join(md, h + ".mod")
+    for p, content in ((mf, tmpl.replace("@REPO@", os.path.realpath(repo))), (os.path.join(md, h + ".sum"), open(os.path.join(repo, "go.sum")).read())):
+        if not os.path.exists(p) or open(p).read() != content:
+            tmp = p + ".%d" % os.getpid()
+            open(tmp, "w").write(content)
+            os.replace(tmp, p)
+    return mf
+
+
+def harness_build_cmd(name, repo, out, tags="verif", race=False, pkg=None):
+    mf = ensure_harness_mod(repo)
+    return (["go", "build", "-tags", tags] + (["-race"] if race else []) + (["-modfile=" + mf] if mf else [])
+            + ["-o", out, pkg or ("./cmd/" + name)])
 
 
 def build_harness(name, repo, tags="verif", race=False, timeout=900):
-    ensure_harness_mod(repo)
     hdir = os.path.join(VERIF, "harness")
-    out = os.path.join(VERIF, "build", "bin", name + ("-race" if race else ""))
+    suffix = ("-race" if race else "") + ("" if os.path.realpath(repo) == "/repo" else "-" + hashlib.sha256(os.path.realpath(repo).encode()).hexdigest()[:8])
+    out = os.path.join(VERIF, "build", "bin", name + suffix)
     os.makedirs(os.path.dirname(out), exist_ok=True)
-    cmd = ["go", "build", "-tags", tags] + (["-race"] if race else []) + ["-o", out, "./cmd/" + name]
-    rc, o = sh(cmd, cwd=hdir, env=go_env(repo), timeout=timeout)
+    rc, o = sh(harness_build_cmd(name, repo, out, tags, race), cwd=hdir, env=go_env(repo), timeout=timeout)
     return rc, o, out
 
 
